@@ -594,6 +594,8 @@ PROPS["C12"]["theorems"] += ["BB.LockOrder.no_wait_cycle", "BB.LockOrder.no_dead
 with_conform(PROPS["C09"], "Exclusive")
 with_conform(PROPS["C10"], "Exclusive", "Generic")
 with_conform(PROPS["C14"], "Generic", "Workers")
+# the access table allows Exclusive's unlocked read of item.work after the swap: that allowance rests on the attach / swap protocol
+with_conform(PROPS["C11"], "Exclusive")
 with_conform(PROPS["C15"], "Notifier")
 with_conform(PROPS["C18"], "Retry")
 with_conform(PROPS["C20"], "Attempt")
